@@ -539,7 +539,7 @@ structure State where
   height : Nat := 1
   vs : Nat → VS := fun _ => {}
   allow : Nat → Nat → Nat → Nat := fun _ _ _ => 0      -- validator, owner, spender ↦ shares
-  redel : List (Nat × Nat × Nat × Nat) := []             -- (delegator, src, dst, creation height)
+  redel : List (Nat × Nat × Nat × Nat) := []             -- (delegator, src, dst, creation height of the entry)
   ubd : List (Nat × Nat × Nat × Nat) := []               -- (delegator, validator, creation height, balance); the
                                                          -- entries one delegator creates at one validator within one
                                                          -- block are ONE entry of the SDK record (balances added up)
@@ -678,8 +678,10 @@ def State.exec (c : Cfg) (s : State) : Op → Except Err State
           -- `Delegate(…, tokenSrc = srcValidator.GetStatus(), dstValidator, subtractAccount = false)`
           let s1 := ((((s.setVS src vsrc).setVS dst vdst).addGain d r1).addGain d r2).poolMove
             (s.vs src).bonded (s.vs dst).bonded ret
-          -- `Redelegation.AddEntry` always appends (only `UnbondingDelegation.AddEntry` merges entries of one block)
-          .ok { s1 with redel := s1.redel ++ [(d, src, dst, s.height)] }
+          -- `Redelegation.AddEntry` always appends (only `UnbondingDelegation.AddEntry` merges entries of one block);
+          -- `getBeginInfo`: the entry of a Bonded source is stamped with the current height, that of an Unbonding source
+          -- with the height at which the source validator left the active set
+          .ok { s1 with redel := s1.redel ++ [(d, src, dst, if (s.vs src).bonded then s.height else (s.vs src).ubHeight)] }
   | .withdraw d v =>
     if !(s.okAcc d && s.okVal v) then .error .badArgs else
     match (s.vs v).withdrawMsg s.height d with
